@@ -226,6 +226,7 @@ class History:
             self.sync_keys()
             ins, outs = self.body_of(t)
             self.sent.append((t.txid, t.raw_hex(), ins, outs))
+            self.sent_objs = getattr(self, 'sent_objs', []) + [t]
             self.record('send.%d.%s.%s' % (self.tid(t.txid), ins, outs), 'ok', descr + ' -> pushed %s..' % t.txid[:8])
             self.check_reload(self.w, 'same object')
         else:
@@ -338,6 +339,21 @@ class History:
         self.sync_keys()
         self.record('bal', 'ok', 'new key(s)')
 
+    def op_resend(self):
+        # the caller still holds the object of a transaction that was sent earlier and sends it again (the network knows it already):
+        # nothing changes - in particular nothing that was spent since comes back
+        objs = [o for o in getattr(self, 'sent_objs', []) if any(o.txid == x[0] for x in self.sent)]
+        if not objs:
+            return self.op_balance()
+        t = self.rng.choice(objs)
+        try:
+            t.send()
+        except Exception as e:
+            self.ctx.count('resend-refused:' + type(e).__name__)
+        PUSH['accepted'] = []
+        self.ctx.count('resend')
+        self.record('reopen', 'ok', 'send() again on the object of %s..' % t.txid[:8])
+
     def op_balance(self):
         self.w.balance()
         self.record('bal', 'ok', 'balance()')
@@ -372,7 +388,7 @@ class History:
         rng = self.rng
         for _ in range(3):
             self.op_add()
-        table = [(self.op_add, 3), (self.op_send, 5), (self.op_sweep, 1), (self.op_delete, 2), (self.op_reopen, 2), (self.op_newkey, 1), (self.op_balance, 1)]
+        table = [(self.op_add, 3), (self.op_send, 5), (self.op_sweep, 1), (self.op_delete, 2), (self.op_reopen, 2), (self.op_newkey, 1), (self.op_balance, 1), (self.op_resend, 2)]
         pool = [f for f, wgt in table for _ in range(wgt)]
         for _ in range(self.nops):
             rng.choice(pool)()
